@@ -8,15 +8,15 @@ d=$1; prop=$2; tier=${3:-quick}
 if [ "${SEED_IN_REPO:-0}" = 1 ]; then
   cd /repo && git diff --quiet || { echo "/repo not clean"; exit 3; }
   git -C /repo apply "/verif/$d/patch.diff" || { echo "patch does not apply"; exit 3; }
-  cd /verif && python3 tools/check.py "$prop" --tier "$tier" > /tmp/seedtest.out 2>&1; rc=$?
+  cd /verif && python3 tools/check.py "$prop" --tier "$tier" > /tmp/seedtest-$$.out 2>&1; rc=$?
   git -C /repo checkout -- .
 else
   wt=/var/tmp/seedwt-$$; out=/var/tmp/seedout-$$
   git -C /repo worktree add -q --detach $wt HEAD || exit 3
   cp /repo/Makefile $wt/Makefile
   git -C $wt apply "/verif/$d/patch.diff" || { echo "patch does not apply"; git -C /repo worktree remove --force $wt; exit 3; }
-  cd /verif && VERIF_REPO=$wt VERIF_OUT=$out python3 tools/check.py "$prop" --tier "$tier" > /tmp/seedtest.out 2>&1; rc=$?
+  cd /verif && VERIF_REPO=$wt VERIF_OUT=$out python3 tools/check.py "$prop" --tier "$tier" > /tmp/seedtest-$$.out 2>&1; rc=$?
   git -C /repo worktree remove --force $wt; rm -rf $out
 fi
-grep -E "VIOLATION|BROKEN|KNOWN" /tmp/seedtest.out | head -5
+grep -E "VIOLATION|BROKEN|KNOWN" /tmp/seedtest-$$.out | head -5
 echo "exit=$rc"
